@@ -1,13 +1,15 @@
 (* C06: the quote element and what becomes of its output.
-   - `quotify_str`: the string overload of elements.quotify
-       "`{}`".format(lhs.replace("\\", "\\\\").replace("`", "\\`"))
-     (str.replace with a one-character pattern is a per-character substitution);
-   - `py_dq_decode`: Python's decoding of the body of a double-quoted string literal,
-     restricted to raw characters and the escapes \\ \" \n.  None = outside that domain
-     (another escape such as \a \x41 \`, a raw quote, a raw newline / carriage return /
-     NUL, a surrogate, a trailing lone backslash);
-   - `pushed_string`: the string appended by the statement  stack.append("<body>");
-   - `uncompress_dict`: helpers.uncompress_dict, parametric in the two dictionaries.
+   - quotify_str: the string overload of elements.quotify, i.e. the text between two
+     back-quotes after lhs.replace(BACKSLASH, BACKSLASH BACKSLASH).replace(BACKQUOTE,
+     BACKSLASH BACKQUOTE) (str.replace with a one-character pattern is a per-character
+     substitution);
+   - py_dq_decode: Python's decoding of the body of a double-quoted string literal,
+     restricted to raw characters and the three escapes backslash-backslash,
+     backslash-dquote, backslash-n.  None = outside that domain (another escape such as
+     backslash-a, backslash-x41, backslash-backquote; a raw double quote; a raw newline /
+     carriage return / NUL; a surrogate; a trailing lone backslash);
+   - pushed_string: the string appended by the statement stack.append(DQUOTE body DQUOTE);
+   - uncompress_dict: helpers.uncompress_dict, parametric in the two dictionaries.
 
    No proofs in this file. *)
 From Coq Require Import List NArith ZArith Bool String Ascii.
@@ -54,7 +56,7 @@ Fixpoint py_dq_decode (s : str) : option str :=
       else None
   end.
 
-(* the value appended by  stack.append("<body>") *)
+(* the value appended by the statement stack.append(DQUOTE body DQUOTE) *)
 Definition pushed_string (text : str) : option str :=
   match strip_prefix (L "stack.append(""") text with
   | Some r => match strip_suffix (L """)") r with Some body => py_dq_decode body | None => None end
@@ -62,7 +64,8 @@ Definition pushed_string (text : str) : option str :=
   end.
 
 (* the characters of the original string for which the round trip is claimed: everything a
-   Python source text can hold raw, plus the four the pipeline escapes (\ ` " newline) *)
+   Python source text can hold raw, plus the four the pipeline escapes (backslash,
+   back-quote, double quote, newline) *)
 Definition quotable_char (c : N) : bool :=
   negb (N.eqb c 0) && negb (N.eqb c 13) && negb ((55296 <=? c) && (c <=? 57343)) && (c <=? 1114111).
 
